@@ -23,7 +23,7 @@ ASSUMPTIONS = [
     "np.savetxt/np.loadtxt/np.save/np.load reproduce float64 values exactly (checked on integer-valued data)",
     "LazyCall batches are consumed by iteration (for ... in L, as batch_call does); list(L) additionally calls LazyCall.__len__ = data_shape(eval of x), which raises for an x without arrays (not part of the model)",
     "LazyCall: the plain and the nested (x is a LazyCall) branches of __iter__ are modelled (fixed code: _split_extra); the HeavyCall branch ({**i, **j} over cached_batch[batch_size], populated by as_dataset) is compared with the same model lazyIterF on dict-only data (correspondence) and with the eager value {**f(x), **extra} by the search (plain iteration, data_split+data_merge, batch_call, eval; alone, via data_replace, inside and around plain LazyCalls; extras colliding with output keys and not)",
-    "outside the model (parameters, only exercised): tf.data itself (Dataset.from_tensor_slices(...).batch(b).map(f) is taken to yield f on the row windows, prefetch/AUTOTUNE order-preserving), tf.function tracing of the heavy function, the on-disk cache (set_cached_file / Dataset.cache(file)), LazyFile (from_generator, mmap), LazyCall.merge of HeavyCall objects, lists inside x of a HeavyCall (from_tensor_slices turns a list into one tensor)",
+    "outside the model (parameters, only exercised): tf.data itself (Dataset.from_tensor_slices(...).batch(b).map(f) is taken to yield f on the row windows, prefetch/AUTOTUNE order-preserving), tf.function tracing of the heavy function, tf.data's Dataset.cache itself (the naming of the cache per batch size and the re-reading with other batch sizes / from a second object are exercised by the search, harness/c18_z.py), LazyFile (from_generator, mmap), LazyCall.merge of HeavyCall objects, lists inside x of a HeavyCall (from_tensor_slices turns a list into one tensor)",
     "C18b (model TfPwaV.DataX): data_cut is modelled for one comparison 'v <cmp> c' on one addressed 1-d array (var_map path); the sympy parsing / lambdify of the expression is a parameter (validated on the 4 comparison operators)",
     "C18b: flatten_dict_data keys are modelled as strings ('#i' = Python int i, '@name' = key object printing as name; str() of a key = strKey); the theorem flatten_lossless assumes that no two assignments of the loop use the same key (NoColl) -- the colliding case is a proved and observed loss (flatten_collision_loses), reported as a limitation of the function, not as a violation of C18",
     "C18b: a LazyCall object is modelled by (x, extra, batch_size) in a pure model: object identity / aliasing (copy() must not share the extra dict) is checked by the search only; cached_batch, cached_file, name, prefetch are not modelled",
@@ -994,6 +994,8 @@ def search_lazy(ctx, res, rnd, D, stats, hard, mult):
         elif not tree_equal(it2, {"z": tree_map(want, lambda q: q + 1)}):
             res.fail(K_LAZY if nb > 1000 else "LazyCall:nested", "LazyCall(g, LazyCall(f, x)) batches differ from g(f(x)) (outer extra empty, %d batches)" % nb, payload)
     search_lazy_heavy(ctx, res, rnd, D, stats, mult)
+    import c18_z
+    c18_z.search_cache(ctx, res, stats)  # cache file / in-memory cache of a HeavyCall read with several batch sizes
 
 
 K_HEAVY = "LazyCall:HeavyCall:extra-override"
@@ -1180,6 +1182,9 @@ def replay(ctx, payload):
     if op == "x_search":
         import c18_x
         return c18_x.replay(ctx, payload)
+    if op == "lazy_heavy_cache":
+        import c18_z
+        return c18_z.replay(r)
     if op == "split_merge":
         t = unpack(r["tree"])
         b = r["b"]
